@@ -269,10 +269,20 @@ func cmdCheck(args []string) int {
 			fmt.Printf("NOTE: known finding no longer observed: %s\n", k.Obligation)
 		}
 	}
+	// slowest obligations (proofs that take long are the unstable ones)
+	sorted := append([]*Obligation{}, all...)
+	sort.Slice(sorted, func(i, j int) bool { return sorted[i].TimeS > sorted[j].TimeS })
+	var slow []map[string]any
+	for i := 0; i < len(sorted) && i < 5; i++ {
+		if sorted[i].TimeS > 2 {
+			fmt.Printf("  slow: %.1fs %s [%s]\n", sorted[i].TimeS, sorted[i].Name, sorted[i].Solver)
+		}
+		slow = append(slow, map[string]any{"obligation": sorted[i].Name, "seconds": sorted[i].TimeS, "solver": sorted[i].Solver})
+	}
 	total := len(all)
 	fmt.Printf("%s [%s]: %d obligations, %d discharged, %d known findings, %d violations, solver time %.1fs, wall %.1fs\n",
 		id, tier, total, nProved, nKnown, violations, solverTime, time.Since(t0).Seconds())
-	stats := map[string]any{"by_solver": bySolver, "by_kind": byKind, "solver_time_s": solverTime, "known_findings": nKnown, "proved": nProved, "total": total, "bounded": bounded}
+	stats := map[string]any{"by_solver": bySolver, "by_kind": byKind, "solver_time_s": solverTime, "known_findings": nKnown, "proved": nProved, "total": total, "bounded": bounded, "slowest": slow}
 	writeEvidence(verifDir, id, tier, seed, results, all, covers, time.Since(t0).Seconds(), violations, &spec, stats, eng)
 	if violations > 0 {
 		return 1
